@@ -18,7 +18,12 @@ RULE = ('E1/E4: every byte string of length 0..6 over a 6-symbol alphabet '
         'peeked size + 8 == length and the client procedure read 7 / peek / '
         'read size+1 / decode consumes the buffer completely on the peeked '
         'channel. A case is one buffer or one encoded frame; non-trivial = '
-        'not the all-zero buffer / not the default frame.')
+        'not the all-zero buffer / not the default frame.'
+        ' '
+        'Also: every buffer spelled with A M Q P letters in its first '
+        'seven bytes (8 heads x 8^k continuations x 5 trails) and '
+        'real protocol headers; representative frames again with '
+        'debug logging on and in -bb / -OO -bb child interpreters.')
 BOUNDS = {'quick': {'header_bytes': '5^7 product + 7x256x5', 'frames':
                     '<=2-deviation method vectors + C02-quick headers'},
           'thorough': {'header_bytes': '5^7 product + 7x256x5', 'frames':
